@@ -97,3 +97,13 @@ def is_true(t):
 
 def is_false(t):
     return z3.is_false(z3.simplify(t))
+
+
+def N(sv):
+    """numeric value of an SV using its static hint."""
+    ty = getattr(sv, "ty", None)
+    if ty == "int":
+        return Val.i(sv.t)
+    if ty == "bool":
+        return z3.If(Val.b(sv.t), z3.IntVal(1), z3.IntVal(0))
+    return num(sv.t)
